@@ -1,10 +1,10 @@
 \* design-level search for an escape: every archive <= 3 entries over the full hostile alphabet (399 names x
-\* 17 bodies), 6 initial targets, IDEAL deferred-update rule
+\* 9 bodies: two metadata classes; MCTarFSBig.cfg has all 17), 6 initial targets, IDEAL deferred-update rule
 SPECIFICATION Spec
 CONSTANTS Names <- NamesAll
-          DirMeta <- MetaAll
+          DirMeta <- MetaTwo
           LinkTargets <- TargetsAll
-          LinkTimes <- TimesAll
+          LinkTimes = {"z"}
           Variants <- VariantsAll
           HarmTypes = {"file"}
           MaxEntries = 3
